@@ -136,6 +136,7 @@ pub fn replay_rows(tlc_out: &str, bin: &str, scratch: &str, rep: &mut Report) {
     for payload in tlc_rows(tlc_out, "ROW") {
         let Ok(row) = serde_json::from_str::<J>(&payload) else { continue };
         rep.count("rows");
+        rep.ctx = Some(json!({"sub": "cli-replay", "row": payload}));
         let lines: Vec<String> = row["lines"].as_array().unwrap().iter().map(text_of).collect();
         let replies: Vec<String> = row["replies"].as_array().unwrap().iter().map(text_of).collect();
         let mut opts: Vec<String> = vec![];
